@@ -144,6 +144,9 @@ func runRace(toks []string) (string, string) {
 		}
 		run(func(g int) {
 			for i, r := range recs[g] {
+				if custom && g == 1 {
+					_ = w.String() // describing the writer is part of using it
+				}
 				w.Write(r)
 				if wl != "shared-writer" && i%2 == 1 && g == 0 {
 					w.Rotate()
